@@ -87,6 +87,11 @@ type c07Line struct {
 	AnsStr string   `json:"ansstr"` // concrete version string the peer answers initialize with ("" = honest)
 	Tools  []string `json:"tools"`
 	Listen bool     `json:"listen"`
+	// concurrent scenarios (c07_conc_test.go): scenario number (0 = a cell of the one-connection matrix), the
+	// connection's name in the schedule, and the steps during which its events happened ("dispatched=2,got=3,done=5")
+	Scn int    `json:"scn"`
+	Who string `json:"who"`
+	At  string `json:"at"`
 }
 
 // ---------------------------------------------------------------------------
@@ -652,6 +657,15 @@ func TestVerif_C07(t *testing.T) {
 			}
 			w.Flush()
 		}
+	}
+	// the interleaving dimension: scenarios of NegotiateConc.tla, one Server, several connections in progress
+	if cin := os.Getenv("VERIF_CONC_IN"); cin != "" {
+		c07ConcAll(t, r, cin, prog, func(line c07Line) {
+			if err := enc.Encode(line); err != nil {
+				t.Fatal(err)
+			}
+			w.Flush()
+		})
 	}
 	_ = errors.New
 }
